@@ -114,6 +114,34 @@ theorem splitGroup_bound (maxi hdr : Nat) :
         have e : hdr + (sz cur + (x.size + 0)) = hdr + sz cur + x.size := by omega
         rw [e]; exact this
 
+/-- An attribute that is yielded holds at least one byte of NLRI. -/
+theorem splitGroup_pos (maxi hdr : Nat) :
+    ∀ (xs cur : List Nlri), ∀ it ∈ splitGroup maxi hdr xs cur, 0 < sz it := by
+  intro xs
+  induction xs with
+  | nil =>
+    intro cur it hit
+    unfold splitGroup at hit
+    split at hit
+    · simp at hit; subst hit; assumption
+    · simp at hit
+  | cons x xs ih =>
+    intro cur it hit
+    unfold splitGroup at hit
+    split at hit
+    · exact ih cur it hit
+    · rename_i hx
+      split at hit
+      · rename_i hbig
+        simp only [List.mem_cons] at hit
+        rcases hit with h | h
+        · subst h
+          refine Nat.pos_of_ne_zero (fun h0 => ?_)
+          have e : hdr + sz it + x.size = hdr + x.size := by omega
+          rw [e] at hbig; omega
+        · exact ih [x] it h
+      · exact ih (cur ++ [x]) it hit
+
 /-- Nothing is invented, and an NLRI that cannot fit alone is in no attribute. -/
 theorem splitGroup_sub (maxi hdr : Nat) :
     ∀ (xs cur : List Nlri), ∀ it ∈ splitGroup maxi hdr xs cur, ∀ y ∈ it,
